@@ -22,7 +22,9 @@ RULE = ("Answer patterns over N=12 consecutive heartbeats, each heartbeat answer
         "late 45, never} for k<=4 (quick) / k<=6 (thorough), random patterns over all delays, "
         "silence starting at the first heartbeat / after a response / after a previous timeout "
         "reset; both generations through the full API (init against the simulated console) and "
-        "HeartbeatManager directly with custom (interval, timeout) pairs. Oracle: a silence-"
+        "HeartbeatManager directly with custom (interval, timeout) pairs; link outages unrelated "
+        "to the heartbeat (peer FIN/RST, reconnect taking 1..25 s) around heartbeat ticks, "
+        "with up to 10 commands queued while down. Oracle: a silence-"
         "clock model predicts the instants of version requests and of client-initiated "
         "close+open from the console-side timestamps. Non-trivial = at least 3 heartbeats were "
         "observed and compared; distinct = distinct (generation, config, pattern).")
@@ -31,29 +33,58 @@ ASSUMPTIONS = ["virtual clock; verdict on virtual instants (+-1 us)",
                "no other fault disturbs the link in these scenarios"]
 REQUIRED_OBS = ["heartbeats_compared", "timeout_resets_predicted_and_seen",
                 "never_answered_from_start", "all_answered_no_reset", "custom_configs",
-                "reset_after_previous_reset", "after_init_shutdown_cycle"]
+                "reset_after_previous_reset", "after_init_shutdown_cycle",
+                "ticks_while_link_down", "heartbeats_after_a_skipped_tick",
+                "tick_with_full_queue"]
 BUDGET = {"quick": 100, "thorough": 1500}
 
 N = 12
 PROMPT, NEVER = 0.0, None
 
 
-def predict(T0, I, W, pattern, horizon):
-    """Silence-clock model.  Returns (request_times, reset_times, tie)."""
+def predict(T0, I, W, pattern, horizon, outages=()):
+    """Silence-clock model.  Returns (request_times, reset_times, tie).
+    `outages` = [(t_down, t_up)]: intervals in which the link is down for a reason that has
+    nothing to do with the heartbeat (peer closed, reconnect takes until t_up): a tick in an
+    outage emits nothing, a deadline in an outage resets nothing and is re-armed, an answer
+    still under way when the link drops is lost with its connection."""
     reqs, resets = [], []
     deadline = T0 + W
     epoch = 0
     pending = []  # (time, epoch)
     k = 0
     t_next_req = T0
+    edges = sorted([(a, "down") for a, _ in outages] + [(b, "up") for _, b in outages])
+    connected = True
     while True:
         cands = [("req", t_next_req), ("dl", deadline)]
         if pending:
             cands.append(("resp", min(p[0] for p in pending)))
-        kind, t = min(cands, key=lambda c: (c[1], {"resp": 0, "req": 1, "dl": 2}[c[0]]))
+        if edges:
+            cands.append((edges[0][1], edges[0][0]))
+        kind, t = min(cands, key=lambda c: (c[1], {"resp": 0, "req": 1, "dl": 2, "down": 3,
+                                                   "up": 3}[c[0]]))
         if t > horizon:
             break
         same = [c for c in cands if abs(c[1] - t) < 1e-6]
+        if len(same) > 1 and any(c[0] in ("down", "up") for c in same):
+            return reqs, resets, t
+        if kind in ("down", "up"):
+            edges.pop(0)
+            connected = kind == "up"
+            if kind == "down":
+                epoch += 1
+            continue
+        if not connected:
+            if kind == "req":
+                t_next_req += I
+            elif kind == "dl":
+                # what a deadline that expires while the link is down anyway should lead to
+                # is not stated: judged only up to here
+                return reqs, resets, t
+            else:
+                pending.remove(min(pending, key=lambda p: p[0]))
+            continue
         if len(same) > 1 and any(c[0] == "dl" for c in same):
             # a deadline coinciding with anything else: order inside one instant is not decided
             if any(c[0] == "resp" and any(abs(p[0] - t) < 1e-6 and p[1] == epoch
@@ -104,6 +135,38 @@ def cases(tier, seed):
         for pat in ([None] * N, [0.0] * N, [45.0, None, 0.0] * 4):
             yield {"gen": gen, "mode": "api", "pattern": pat, "cycle": True,
                    "vary_version": True}
+    # link outages that have nothing to do with the heartbeat (peer closes, the reconnect
+    # takes `dur`), placed around heartbeat ticks; optionally 10 commands are queued while down
+    shapes = [("tick_in_short_outage", -0.37, 1.0, 0), ("tick_in_long_outage", -0.37, 5.0, 0),
+              ("tick_in_outage_full_queue", -14.63, 25.0, 10),
+              ("tick_in_outage_some_queued", -14.63, 25.0, 4),
+              ("outage_between_ticks", 100.13, 1.0, 0), ("outage_just_after_tick", 0.21, 3.0, 0),
+              ("outage_ends_just_before_tick", -3.21, 3.0, 0)]
+    for gen in (4, 5):
+        for mode in ("api", "manager"):
+            for name, off, dur, cmds in shapes:
+                for k in ((1, 3) if tier == "quick" else (1, 2, 3, 5, 8)):
+                    for pat in ([0.0] * N, [0.0, None, 0.0, 0.0, None, None] * 2):
+                        c = {"gen": gen, "mode": mode, "pattern": pat, "shape": name,
+                             "outages": [{"down": k * 300.0 + off, "dur": dur, "cmds": cmds,
+                                          "cmd_off": 5.0, "how": "fin" if k % 2 else "rst"}]}
+                        if mode == "manager":
+                            c.update(interval=300.0, timeout=330.0)
+                        yield c
+    for i in range(40 if tier == "quick" else 8000):
+        outs, t = [], 0.0
+        for _ in range(rnd.randint(1, 3)):
+            name, off, dur, cmds = rnd.choice(shapes)
+            k = rnd.randint(1, 3)
+            t += k * 300.0
+            outs.append({"down": t + off + rnd.choice([0.0, 0.05, -0.11]), "dur": dur,
+                         "cmds": cmds, "cmd_off": 5.0, "how": rnd.choice(["fin", "rst"])})
+        c = {"gen": rnd.choice((4, 5)), "mode": rnd.choice(["api", "manager"]),
+             "pattern": [rnd.choice([0.0, 0.0, 1.0, None, 45.0]) for _ in range(N)],
+             "shape": "random", "outages": outs}
+        if c["mode"] == "manager":
+            c.update(interval=300.0, timeout=330.0)
+        yield c
     m = 60 if tier == "quick" else 15000
     for _ in range(m):
         I = rnd.choice([10.0, 60.0, 300.0, 7.5])
@@ -113,11 +176,40 @@ def cases(tier, seed):
                            for _ in range(N)]}
 
 
+async def drive_outages(loop, net, log, T0, outages, command):
+    """Drop the link at T0+down (the reconnect takes `dur`), optionally submit commands."""
+    for o in outages:
+        await asyncio.sleep(T0 + o["down"] - loop.time())
+        c = net.current()
+        if c is None:
+            log.add("SCRIPT.skipped", op="outage")
+            continue
+        net.script.append(("accept", o["dur"]))
+        log.add("SCRIPT.outage", down=loop.time(), up=loop.time() + o["dur"])
+        if o.get("how") == "rst":
+            c.transport.peer_reset()
+        else:
+            c.transport.peer_eof()
+        if o.get("cmds"):
+            await asyncio.sleep(o["cmd_off"])
+            for i in range(o["cmds"]):
+                try:
+                    await command(i)
+                except Exception as e:  # noqa: BLE001
+                    log.add("API.raise", name="command", exc=repr(e))
+
+
+def outage_windows(log, m0, m1):
+    return [(d["down"], d["up"]) for _, t, k, d in log.events[m0:m1] if k == "SCRIPT.outage"]
+
+
 def observe(log, m0, m1):
     ev = log.events[m0:m1]
     reqs = [t for _, t, k, d in ev if k == "CON.frame"
             and d["cmd"]["kind"] == "version_request"]
-    closes = [t for _, t, k, d in ev if k == "NET.close" and not d["fault"]]
+    downs = [d["down"] for _, t, k, d in ev if k == "SCRIPT.outage"]
+    closes = [t for _, t, k, d in ev if k == "NET.close" and not d["fault"]
+              and not any(abs(t - a) < 1e-6 for a in downs)]
     opens = [t for _, t, k, d in ev if k == "NET.open"]
     return reqs, closes, opens
 
@@ -153,6 +245,22 @@ def compare(viol, obs, what, want_reqs, want_resets, reqs, closes, opens, info):
         else:
             obs["all_answered_no_reset"] = 1
     obs["heartbeats_compared"] = len(want_reqs)
+
+
+def note_outages(obs, case, wins, want_reqs, T0, I, tie, log, out):
+    if not wins:
+        return
+    end = tie if tie is not None else out["end"]
+    ticks = [T0 + k * I for k in range(N + 1) if T0 + k * I < end]
+    skipped = [t for t in ticks if any(a <= t < b for a, b in wins)]
+    if skipped:
+        obs["ticks_while_link_down"] = len(skipped)
+        if any(t > max(skipped) for t in want_reqs):
+            obs["heartbeats_after_a_skipped_tick"] = 1
+    full = any(o.get("cmds", 0) >= 10 for o in case["outages"])
+    if full and skipped:
+        obs["tick_with_full_queue"] = 1
+    obs["outage_runs"] = 1
 
 
 def run_api(case):
@@ -196,9 +304,19 @@ def run_api(case):
         out["ok"] = ok
         out["T0"] = loop.time()
         out["m0"] = log.mark()
+        drv = None
+        if case.get("outages"):
+            table = AW.commands(gen)
+
+            def command(i):
+                return table[("zone_on", "zone_off", "ac_power_on")[i % 3]][0](w)
+            drv = loop.create_task(drive_outages(loop, net, log, out["T0"], case["outages"],
+                                                 command))
         await asyncio.sleep(N * 300.0 + 10.0)
         out["end"] = loop.time()
         out["m1"] = log.mark()
+        if drv is not None:
+            await drv
         await w.at.shutdown()
 
     _, log, st = H.run(main)
@@ -207,13 +325,15 @@ def run_api(case):
         viol.append({"mechanism": "heartbeat-scenario-did-not-run", "detail": dict(info, st=st)})
         return viol, obs
     T0 = out["T0"]
-    want_reqs, want_resets, tie = predict(T0, 300.0, 330.0, pattern, out["end"])
+    wins = outage_windows(log, out["m0"], out["m1"])
+    want_reqs, want_resets, tie = predict(T0, 300.0, 330.0, pattern, out["end"], wins)
     reqs, closes, opens = observe(log, out["m0"], out["m1"])
     if tie is not None:
         # judge only what happens strictly before the first undecided instant
         reqs, closes, opens = ([t for t in x if t < tie - 1e-6] for x in (reqs, closes, opens))
         obs["ties_truncated"] = 1
     compare(viol, obs, "api", want_reqs, want_resets, reqs, closes, opens, info)
+    note_outages(obs, case, wins, want_reqs, T0, 300.0, tie, log, out)
     if all(p is None for p in pattern):
         obs["never_answered_from_start"] = 1
     if case.get("cycle") and not viol:
@@ -269,9 +389,21 @@ def run_manager(case):
         out["T0"] = loop.time()
         out["m0"] = log.mark()
         await mgr.start()
+        drv = None
+        if case.get("outages"):
+            from .. import sockscript as S
+            import pyairtouch.comms.socket as psock
+
+            def command(i):
+                msg, _, _ = S.make_message(gen, ("zone_ctrl", "ac_ctrl")[i % 2], 5000 + i)
+                return w.sock.send(msg, psock.RETRY_IDEMPOTENT)
+            drv = loop.create_task(drive_outages(loop, net, log, out["T0"], case["outages"],
+                                                 command))
         await asyncio.sleep(N * I + 1.0)
         out["end"] = loop.time()
         out["m1"] = log.mark()
+        if drv is not None:
+            await drv
         await mgr.stop()
         await w.close()
 
@@ -280,12 +412,14 @@ def run_manager(case):
     if st != "ok":
         viol.append({"mechanism": "heartbeat-scenario-did-not-run", "detail": dict(info, st=st)})
         return viol, obs
-    want_reqs, want_resets, tie = predict(out["T0"], I, W, pattern, out["end"])
+    wins = outage_windows(log, out["m0"], out["m1"])
+    want_reqs, want_resets, tie = predict(out["T0"], I, W, pattern, out["end"], wins)
     reqs, closes, opens = observe(log, out["m0"], out["m1"])
     if tie is not None:
         reqs, closes, opens = ([t for t in x if t < tie - 1e-6] for x in (reqs, closes, opens))
         obs["ties_truncated"] = 1
     compare(viol, obs, "manager", want_reqs, want_resets, reqs, closes, opens, info)
+    note_outages(obs, case, wins, want_reqs, out["T0"], I, tie, log, out)
     obs["custom_configs"] = 1
     for x in viol:
         x["log"] = H.log_slice(log, 30)
